@@ -553,3 +553,50 @@ func (o *LogOracle) Final(s *vsched.Sched, final string) {
 		}
 	}
 }
+
+// =====================================================================================
+// C19: the stored ensemble of the shard is RF distinct servers, at every BecomeLeader and at the end
+
+type EnsembleOracle struct {
+	c  *Cluster
+	s  *vsched.Sched
+	rf int
+}
+
+func (o *EnsembleOracle) Attach(c *Cluster, obs *Obs) {
+	o.c, o.s, o.rf = c, c.S, 3
+	prev := c.OnRPC
+	c.OnRPC = func(e Event) {
+		if prev != nil {
+			prev(e)
+		}
+		if e.Kind == "send:BecomeLeader" {
+			o.check(fmt.Sprintf("when BecomeLeader(term %d) is sent to %s", e.Term, e.Node))
+		}
+	}
+}
+
+func (o *EnsembleOracle) check(when string) {
+	md, ok := o.c.StoredMetadata()
+	if !ok {
+		return
+	}
+	seen := map[string]bool{}
+	var ids []string
+	dup := false
+	for _, x := range md.Ensemble {
+		id := x.GetIdentifier()
+		if seen[id] {
+			dup = true
+		}
+		seen[id] = true
+		ids = append(ids, id)
+	}
+	if len(ids) != o.rf || dup {
+		o.s.Fail("ensemble-not-rf-distinct", fmt.Sprintf("%s the stored ensemble of the shard is %v: not %d distinct servers", when, ids, o.rf))
+	}
+}
+
+func (o *EnsembleOracle) Final(s *vsched.Sched, final string) { o.check("at the end") }
+
+func (o *EnsembleOracle) Point(*vsched.Sched) {}
